@@ -5,6 +5,7 @@ import NucsProofs.Propagators.CountEq
 import NucsProofs.Propagators.Counting
 import NucsProofs.Propagators.Dummy
 import NucsProofs.Propagators.Element
+import NucsProofs.Propagators.GccReg
 import NucsProofs.Propagators.Lex
 import NucsProofs.Propagators.MinMax
 import NucsProofs.Propagators.NoSubCycle
